@@ -169,6 +169,40 @@ PROPS = {
         level_note='bounded exhaustive small scope; one known finding',
         explanation='bounded run-time contract checking of the real code against an executable specification written from the statement; no obligation discharged yet for this property',
     ),
+    'C11': dict(
+        title='Lookups stay memory-safe and atomic when other code mutates the registry',
+        contracts=[], falsifier='C11', modes=['py', 'c'], level='other',
+        cfunctions=['_subcache', '_getcache', '_lookup', '_lookup1', '_adapter_hook', '_lookupAll', '_subscriptions', 'IB__adapt__', 'SB_extends', 'SB_providedBy', 'SB_implementedBy'],
+        creturns={'_subcache': 'borrowed', '_getcache': 'borrowed'},
+        level_text='The C lookup functions (_subcache, _getcache, _lookup, _lookup1, _adapter_hook, _lookupAll, _subscriptions) and '
+                   'IB__adapt__/SB_extends/SB_providedBy/SB_implementedBy are executed path by path from the clang AST of the real file '
+                   'under ownership contracts of the CPython API: on every path no reference borrowed from a mutable container is '
+                   'used after a call that can run Python code unless the frame owns it (U), references are balanced at every '
+                   'return incl. error exits (L), NULL is never passed where forbidden (N), list indexes are bounded by a size read '
+                   'since the last call-out (B), and a value computed by a call-out is only stored into a container acquired before '
+                   'it (St: no answer computed before a re-entrant mutation survives in the live cache). Behaviour under actual '
+                   're-entrant mutation (532-point product), reference-count deltas and a short thread stress are checked bounded.',
+        level_note='CPython API table and call-out classification are trusted (dict hashing of specification keys assumed not to run '
+                   'registry-mutating code; name checked str => PyObject_IsTrue does not call out); thread interleavings of the '
+                   'pure-Python implementation are not decided (DESIGN 6).',
+        explanation='ownership obligations discharged path-wise for the C functions; atomicity under re-entrancy and threads bounded',
+        not_decided=['pre-emptive interleaving of the pure-Python implementation at byte-code granularity', 'free-threaded builds'],
+    ),
+    'C10': dict(
+        title='The C accelerator is observationally equivalent to the Python reference',
+        contracts=[], falsifier='C10', modes=['py', 'c'], level='other', differential=True,
+        cfunctions=['_subcache', '_getcache', '_lookup', '_lookup1', '_adapter_hook', '_lookupAll', '_subscriptions', 'IB__adapt__', 'SB_extends', 'SB_providedBy', 'SB_implementedBy'],
+        creturns={'_subcache': 'borrowed', '_getcache': 'borrowed'},
+        level_text='Bounded differential check: five generated API programs (17.7k steps: specification queries, comparison and hashing, '
+                   'declaration queries, adaptation calls, registry lookups incl. cached answers) over a pool of 33 odd argument values '
+                   'are executed under both implementations and the traces (value shapes and exception types) compared; in addition '
+                   'the bounded checks of C01-C09, C12-C14, C19 run under both implementations against one executable contract each. '
+                   'The ownership obligations of the C functions (see C11) are discharged as part of this check.',
+        level_note='equivalence itself is bounded (fixed programs and argument pool); twin pairs are not yet verified against one '
+                   'functional contract by the C front end.',
+        explanation='differential execution of generated programs under both implementations; ownership obligations of the C twins discharged',
+        not_decided=['programs reaching C-only behaviour through user subclasses overriding the hooks', 'pre-3.11 static-type branch of the C file, PyPy'],
+    ),
 }
 
 # properties not claimed (kept current; see DESIGN.md section 6)
